@@ -25,6 +25,12 @@ Proof.
   intros Hp H0 Hw. cbn [infer]. unfold verilog_str. rewrite Hp. apply verilog_tail_width_mismatch; assumption.
 Qed.
 
+Lemma verilog_str_zero_width s neg num w passed :
+  verilog_parse s = Ok (neg, w, num) -> w < 1 -> is_ok (infer (RStr s) passed false) = false.
+Proof.
+  intros Hp Hw. cbn [infer]. unfold verilog_str. rewrite Hp. apply verilog_tail_zero_width; assumption.
+Qed.
+
 (* Const on ints and bools: the internal post-checks (codes 200+k of const_model) never fire *)
 Lemma const_int_postchecks_never_fire v w s n w' :
   infer (RInt v) w s = Ok (n, w') -> const_postchecks n w' = None.
